@@ -2754,3 +2754,25 @@ M("C05", "rendering-counts-on-the-node", PG,
   "        blocks = []\n        self.extra_info[\"rendered\"] = True\n        blocks.append(f\"{' ' * indent}:{self.node_type}{branch_info};\")",
   "R5.22", "rendering leaves state on the node: a shared loop body is "
   "rendered several times (seed C05-t)")
+
+T("C05", "twin-rotate-start-not-recorded", WALK,
+  '''            puml_graph, logic_list, previous_node_class
+        )
+        logic_list[-1].current_path_puml_node = previous_puml_node
+    return previous_puml_node, previous_node_class
+
+
+def handle_reach_logic_merge_point(''',
+  '''            puml_graph, logic_list, previous_node_class
+        )
+    return previous_puml_node, previous_node_class
+
+
+def handle_reach_logic_merge_point(''',
+  "the slot of the current path is overwritten by the next rotation or "
+  "dropped by the pop before anything reads it (triaged with a poison "
+  "value over 1600 job families: was demanded by R5.16)")
+M("C05", "rotate-restarts-walked-path", WALK,
+  "    if previous_puml_node == logic_list[-1].start_node:\n        previous_puml_node, previous_node_class = handle_logic_list_next_path(",
+  "    if previous_puml_node != logic_list[-1].end_node:\n        previous_puml_node, previous_node_class = handle_logic_list_next_path(",
+  "R5.16", "a path that was already walked is started again after a rotation")
